@@ -144,7 +144,117 @@ pub fn pure_strategy() -> impl Strategy<Value = PureCase> {
         })
 }
 
+/// Live judge: which stacks are present vs which threads reference the principal mapping.
+pub fn judge_live(c: &crate::props::planted::PCase) -> Verdict {
+    use crate::props::planted::*;
+    let o = match run_case(c) {
+        Ok(o) => o,
+        Err(Verdict::Violation { signature, detail }) if signature == "dump-failed" => return Verdict::viol("C20:dump-failed", detail),
+        Err(v) => return v,
+    };
+    macro_rules! bad {
+        ($sig:expr, $($arg:tt)*) => { return Verdict::viol(format!("C20:{}", $sig), format!($($arg)*)) };
+    }
+    let Some(threads) = o.d.threads.as_ref() else { bad!("no-thread-list", "thread list missing") };
+    let (ps, pe) = o.principal.unwrap_or((0, 0));
+    let mut included = 0;
+    let mut excluded = 0;
+    for (i, tid) in o.tids.iter().enumerate() {
+        let Some(t) = threads.iter().find(|t| t.tid as i32 == *tid) else { bad!("thread-record-missing", "thread {tid} has no record") };
+        if t.ctx.size == 0 {
+            bad!("context-missing", "thread {tid} (stack excluded or not) has no context");
+        }
+        let is_crash = o.crash.as_ref().map(|c| c.tid == *tid).unwrap_or(false);
+        let sp = o.sps[i];
+        let st = o.stacks[i];
+        // the thread's instruction pointer
+        let rip_inside = if is_crash {
+            let rip = o.crash.as_ref().unwrap().gregs[crate::vcore::regs::REG_RIP] as u64;
+            o.principal.is_some() && rip >= ps && rip < pe
+        } else {
+            o.spinner_in_principal[i]
+        };
+        // aligned words at/above sp in the region that would be captured: [page(sp), end of stack)
+        let start = sp & !4095;
+        let Some(mem) = o.target.read_mem(start, (st.end - start) as usize) else { return Verdict::Inconclusive("cannot read target stack".into()) };
+        let mut holds = false;
+        if o.principal.is_some() {
+            let mut pos = (((sp - start) + 7) & !7) as usize;
+            while pos + 8 <= mem.len() {
+                let v = u64::from_le_bytes(mem[pos..pos + 8].try_into().unwrap());
+                // the spinner keeps rewriting its slot with a counter; counters are far from any mapping
+                if v >= ps && v < pe {
+                    holds = true;
+                    break;
+                }
+                pos += 8;
+            }
+        }
+        let want = rip_inside || holds;
+        let got = t.stack.size != 0;
+        if want != got {
+            bad!(
+                if want { "referencing-stack-dropped" } else { "unreferenced-stack-kept" },
+                "thread {tid} (crash thread {is_crash}): instruction pointer inside principal mapping: {rip_inside}, aligned word at/above sp {sp:#x} pointing into [{ps:#x},{pe:#x}): {holds}; stack present: {got}"
+            );
+        }
+        if got {
+            included += 1;
+        } else {
+            excluded += 1;
+        }
+    }
+    // soft error
+    let mut flat = std::collections::BTreeMap::new();
+    crate::props::c11::flatten(&o.soft, "", &mut flat);
+    let reported = flat.contains_key("PrincipalMappingNotReferenced");
+    let mut classes = vec![];
+    if let Some(cr) = &o.crash {
+        let i = o.tids.iter().position(|t| *t == cr.tid).unwrap();
+        let t = threads.iter().find(|t| t.tid as i32 == cr.tid).unwrap();
+        let references = t.stack.size != 0; // judged above to be exactly the reference predicate
+        let _ = i;
+        if o.principal.is_none() {
+            if !reported {
+                bad!("soft-error-missing", "the principal address matches no mapping but PrincipalMappingNotReferenced is not reported");
+            }
+            classes.push("address-in-no-mapping".to_string());
+        } else if references && reported {
+            bad!("soft-error-spurious", "the crashing thread references the principal mapping but PrincipalMappingNotReferenced is reported");
+        } else if !references && !reported {
+            bad!("soft-error-missing", "the crashing thread does not reference the principal mapping but no soft error is reported");
+        }
+    } else if o.principal.is_none() && !reported {
+        bad!("soft-error-missing", "the principal address matches no mapping but PrincipalMappingNotReferenced is not reported");
+    }
+    if included > 0 && excluded > 0 {
+        classes.push("mixed-included-excluded".into());
+    }
+    crate::fw::count("stacks-included", included);
+    crate::fw::count("stacks-excluded", excluded);
+    Verdict::pass_c(if included > 0 && excluded > 0 { Some(fp_json(c)) } else { None }, classes)
+}
+
 pub fn run(ctx: &mut LaneCtx) {
+    ctx.assume("live part: stack skipping enabled and a principal address given (inside a mapping or in a hole); no size limit; without a crash context the statement does not define 'the crashing thread' and the soft error is not judged in that case (except for an address that matches no mapping)");
+    ctx.run_sub(
+        SubSpec {
+            name: "live-filter",
+            cases: (240, 20_000),
+            rule: "1..24 threads on custom stacks with planted words (pointer into the principal mapping / another mapping / one past its end / own stack / small ints, at aligned slots above sp, below sp, or unaligned), spinners running inside an executable mapping, principal address inside a mapping or in a hole, crash context on a chosen thread with rip inside/outside; oracle = stack present iff rip inside or aligned word at/above sp points into the mapping, records+contexts always present, soft error as stated; non-trivial = at least one included and one excluded stack in the same dump; distinct = hash of case",
+            strategy: crate::props::planted::case_strategy(Some(false), Some(true))
+                .prop_map(|mut c| {
+                    if c.principal.is_none() {
+                        c.principal = Some(0);
+                    }
+                    c
+                })
+                .boxed(),
+            max_shrink_iters: 150,
+            log_current: true,
+        },
+        judge_live,
+    );
     ctx.assume("'inside the mapping' is the half-open range [start, end) of the kernel's mapping line");
     ctx.run_sub(
         SubSpec {
@@ -162,6 +272,7 @@ pub fn run(ctx: &mut LaneCtx) {
 pub fn replay(sub: &str, case: &Value) -> Verdict {
     match sub {
         "pure-scan" => replay_case::<PureCase>(case, check_pure),
+        "live-filter" => replay_case::<crate::props::planted::PCase>(case, judge_live),
         _ => Verdict::Inconclusive(format!("unknown sub {sub}")),
     }
 }
